@@ -39,6 +39,16 @@ fn now_ms() -> u64 {
     std::time::SystemTime::now().duration_since(std::time::UNIX_EPOCH).map(|d| d.as_millis() as u64).unwrap_or(0)
 }
 
+/// CPU time (user + system) of this process in milliseconds, from /proc/self/stat
+fn cpu_ms() -> u64 {
+    let Ok(st) = std::fs::read_to_string("/proc/self/stat") else { return 0 };
+    let Some(rest) = st.rfind(')').map(|i| &st[i + 1..]) else { return 0 };
+    let f: Vec<&str> = rest.split_whitespace().collect();
+    // after the command name: state is field 0, utime field 11, stime field 12 (clock ticks, 100 per second)
+    let ticks = f.get(11).and_then(|v| v.parse::<u64>().ok()).unwrap_or(0) + f.get(12).and_then(|v| v.parse::<u64>().ok()).unwrap_or(0);
+    ticks * 10
+}
+
 /// `…/brush-core/src/expansion.rs` → `brush-core/src/expansion.rs` (independent of the checkout dir)
 fn canon_file(f: &str) -> String {
     match f.rfind("/brush-") {
@@ -254,7 +264,7 @@ async fn one(cx: &Cx, f: &[String]) -> String {
         }
         ("EXPAND", 2) => {
             let mut sh = cx.base.clone();
-            if vh::run(&mut sh, "x=abc; y='a b  c'; z=; arr=(1 2 3); declare -A m=([k]=v); set -- p1 'p 2' p3").await.is_err() {
+            if vh::run(&mut sh, "x=abc; y='a b  c'; z=; arr=(1 2 3); declare -A m=([k]=v); cy='arr[cy]'; cx=cx; set -- p1 'p 2' p3").await.is_err() {
                 return "SETUP-ERR".into();
             }
             let r = expand_fields(&mut sh, &f[1]).await;
@@ -368,15 +378,33 @@ fn highlight_all(shell: &vh::Sh, line: &str) -> String {
 
 fn main() {
     install_hook();
+    // A hang is a case that keeps the CPU busy (or blocks) without coming back. On a loaded machine wall
+    // time says little, so the limit is on the CPU time the process spent since the case started; a
+    // generous wall-clock limit (15x) catches a case that blocks without spinning.
     let limit: u64 = std::env::var("C01_WATCHDOG_MS").ok().and_then(|v| v.parse().ok()).unwrap_or(10_000);
-    std::thread::spawn(move || loop {
-        std::thread::sleep(std::time::Duration::from_millis(50));
-        let t = CASE_STARTED_MS.load(Ordering::SeqCst);
-        if t != 0 && now_ms().saturating_sub(t) > limit {
-            // the stuck case gets its response line here; stdout is line-flushed by the main loop
-            println!("HANG {}", STAGE.lock().map(|g| *g).unwrap_or(""));
-            let _ = std::io::stdout().flush();
-            std::process::exit(3);
+    std::thread::spawn(move || {
+        let mut seen_start = 0u64;
+        let mut cpu_at_start = 0u64;
+        loop {
+            std::thread::sleep(std::time::Duration::from_millis(50));
+            let t = CASE_STARTED_MS.load(Ordering::SeqCst);
+            if t == 0 {
+                seen_start = 0;
+                continue;
+            }
+            if t != seen_start {
+                seen_start = t;
+                cpu_at_start = cpu_ms();
+                continue;
+            }
+            let cpu = cpu_ms().saturating_sub(cpu_at_start);
+            let wall = now_ms().saturating_sub(t);
+            if cpu > limit || wall > limit * 15 {
+                // the stuck case gets its response line here; stdout is line-flushed by the main loop
+                println!("HANG {}", STAGE.lock().map(|g| *g).unwrap_or(""));
+                let _ = std::io::stdout().flush();
+                std::process::exit(3);
+            }
         }
     });
     let rt = tokio::runtime::Builder::new_multi_thread().worker_threads(2).enable_all().build().expect("rt");
